@@ -176,6 +176,7 @@ def run(ctx):
     kind_comparators_are_total_orders(ctx, "R16-q")
     use_path_heads_are_guarded(ctx, "R16-r")
     option_values_are_not_incremented_unchecked(ctx, "R16-s")
+    signal_dispositions_are_left_alone(ctx, "R16-t")
     token_loops_make_progress(ctx, "R16-k")
     dependency_preconditions(ctx, "R16-l")
     stdin_never_reaches_file_emitters(ctx, "R16-m")
@@ -1276,3 +1277,35 @@ def option_values_are_not_incremented_unchecked(ctx, rid):
     r.instance(rid, "checked additions / multiplications of the library", "ok" if not flagged else "violation", "",
                "%d examined, %d on a bare option value and a constant, %d reported" % (total, seen, flagged))
     r.floor(rid, total, 150, "checked additions and multiplications outside print_docs")
+
+
+SIGNAL_APIS = ("libc::signal", "libc::sigaction", "libc::raise", "libc::kill", "libc::abort", "libc::sigprocmask", "libc::pthread_sigmask",
+               "libc::pthread_kill", "libc::alarm", "libc::setitimer", "std::process::abort", "core::intrinsics::abort",
+               "std::intrinsics::abort")
+
+
+def signal_dispositions_are_left_alone(ctx, rid):
+    """R16-t: no tool changes how signals are delivered to it, raises one or aborts"""
+    p, r = ctx.p, ctx.r
+    r.rule(rid, "who-may-call, over all five binaries and the library: nobody calls libc::signal / sigaction / sigprocmask / "
+                "raise / kill / abort, process::abort or the abort intrinsic. The Rust runtime starts a program with SIGPIPE "
+                "ignored, which is what turns a closed stdout into an `io::Error` that the emitters report as an ordinary "
+                "failure (exit 1); with the default disposition restored (`signal(SIGPIPE, SIG_DFL)`, the usual cure for "
+                "`--help | head`) `rustfmt --emit stdout big.rs | head -n 1` is killed by signal 13 in the middle of a write")
+    n = 0
+    ws = 0
+    for c in p.all_calls():
+        if c.fn.crate == "build_script_build":
+            continue
+        nm = c.name.split("::<")[0]
+        if (c.declared or "") == "std::io::Write::write_all" or (c.declared or "") == "std::io::Write::write_fmt":
+            ws += 1
+        if any(nm == a or nm.endswith("::" + a.split("::", 1)[1]) and nm.startswith(a.split("::")[0]) for a in SIGNAL_APIS):
+            n += 1
+            r.instance(rid, "%s calls %s" % (short(c.fn.id), short(c.name)), "violation", c.loc())
+            r.violation(rid, "%s calls %s" % (short(c.fn.id), short(c.name)),
+                        "the tool changes its own signal handling (or raises / aborts): a condition that was reported as an "
+                        "ordinary failure — a closed pipe — now ends the process with a signal", [c.loc()])
+    r.instance(rid, "calls that change signal handling, raise or abort", "ok" if not n else "violation", "",
+               "%d found; %d write_all / write_fmt sites rely on write errors being returned" % (n, ws))
+    r.floor(rid, ws, 20, "io::Write call sites in the workspace (errors, not signals, report a closed pipe)")
